@@ -499,3 +499,45 @@ theorem loadBytes_extent (r : CachingReader) (s e : Nat) (hse : s ≤ e) :
         cases re1 <;> simp only <;> omega
 
 end Elf
+
+namespace Elf
+
+theorem readBytes_state (r : CachingReader) (s e : Nat) : (r.readBytes s e).2 = (r.loadBytes s e).2 := by
+  unfold CachingReader.readBytes
+  generalize r.loadBytes s e = l
+  obtain ⟨l1, l2⟩ := l
+  cases l1 <;> rfl
+
+/-- **`section_data` reads nothing but the section's own range**: afterwards the stream position is
+    where it was, or inside `[sh_offset, sh_offset + sh_size]` — under any schedule, whatever the outcome. -/
+theorem sectionData_extent (s : ElfStream) (sh : SectionHeader) :
+    (s.sectionData sh).2.reader.dev.pos = s.reader.dev.pos ∨
+    (sh.sh_offset ≤ (s.sectionData sh).2.reader.dev.pos ∧
+      (s.sectionData sh).2.reader.dev.pos ≤ sh.sh_offset + sh.sh_size) := by
+  rw [sectionData_eq]
+  split
+  · exact Or.inl rfl
+  · cases hrg : dataRange sh.sh_offset sh.sh_size with
+    | err e => exact Or.inl rfl
+    | panic => exact Or.inl rfl
+    | ok rg =>
+      simp only
+      have hr : rg = (sh.sh_offset, sh.sh_offset + sh.sh_size) := by
+        rw [C03.dataRange_eq] at hrg
+        split at hrg
+        · injection hrg with hrg; exact hrg.symm
+        · cases hrg
+      subst hr
+      have hst : (s.withReader (rbind (s.reader.readBytes sh.sh_offset (sh.sh_offset + sh.sh_size))
+          fun buf r => (sectionDataPost s.ehdr sh buf, r))).2.reader =
+          (s.reader.loadBytes sh.sh_offset (sh.sh_offset + sh.sh_size)).2 := by
+        unfold ElfStream.withReader rbind
+        rw [← readBytes_state]
+        generalize s.reader.readBytes sh.sh_offset (sh.sh_offset + sh.sh_size) = q
+        obtain ⟨q1, q2⟩ := q
+        cases q1 <;> rfl
+      simp only at hst ⊢
+      rw [hst]
+      exact loadBytes_extent s.reader sh.sh_offset (sh.sh_offset + sh.sh_size) (by omega)
+
+end Elf
